@@ -9,6 +9,8 @@ pub mod enga_props;
 pub use enga_props::*;
 pub mod diff_props;
 pub use diff_props::*;
+pub mod c14;
+pub use c14::C14;
 
 /// smaller variants of an Engine-A case: drop chunks of the op list (ddmin style)
 pub fn simplify_case_a(c: &CaseA) -> Vec<CaseA> {
